@@ -20,6 +20,8 @@ from harness.models import TModel, apply_to_model, draw_transform_op
 
 PROP = "C13"
 LEVEL = "exploration"
+TECHNIQUE = 'lock-step reference model (4x4 matrix, stack, named snapshots) compared after every operation + icontract invariant on Transform._set_matrix'
+LEVEL_TEXT = 'Held on random operation sequences with nested contexts, exceptions and repeated named restores.'
 RULE = ("random sequences (30-50 ops) of translate/rotate/scale/reflect/mirror/set_pivot/save_state()/"
         "save_state(name)/restore_state()/restore_state(name)/delete_state and nested current_transform()/"
         "named_transform() contexts whose bodies transform, save, restore named states and sometimes "
